@@ -30,7 +30,7 @@ func runC02(c *Ctx) {
 	}
 	c02Ladder(c, ro)
 	c02LeftAssoc(c, ro)
-	c02Layers(c, ro)
+	c02Layers(c, ro, "C02.layers")
 	c02StartSet(c, ro)
 	c02SameLine(c, ro)
 	c02Lists(c, ro)
@@ -394,8 +394,7 @@ func (c *Ctx) producedBy(v ssa.Value, want ...*ssa.Function) (bool, string) {
 
 // ---------- layers ----------
 
-func c02Layers(c *Ctx, ro *ParserRoles) {
-	const rule = "C02.layers"
+func c02Layers(c *Ctx, ro *ParserRoles, rule string) {
 	chk := func(construct string, in ssa.Instruction, v ssa.Value, what string, want ...*ssa.Function) {
 		ok, got := c.producedBy(v, want...)
 		var names []string
@@ -1173,7 +1172,7 @@ func c02Lists(c *Ctx, ro *ParserRoles) {
 	closer := func(name string, f *ssa.Function, inner *ssa.Function, kind int64) {
 		var innerCall ssa.Instruction
 		instrs(f, func(b *ssa.BasicBlock, i int, in ssa.Instruction) {
-			if call, ok := in.(*ssa.Call); ok && calleeOf(call) == inner {
+			if call, ok := in.(*ssa.Call); ok && calleeOf(call) != nil && (calleeOf(call) == inner || c.canon(calleeOf(call)) == c.canon(inner)) {
 				innerCall = in
 			}
 		})
